@@ -15,7 +15,7 @@ import struct, itertools, copy, re
 import common, poxenv
 from common import Check
 import c03
-from c03 import (pack_rec, unpack_rec, mkwild, spec_headers, spec_match, spec_rank, wild, ign_src, ign_dst,
+from c03 import (pack_rec, unpack_rec, mkwild, spec_headers, spec_match, spec_rank_sig, wild, ign_src, ign_dst,
                  W, IN_PORT, DL_SRC, DL_DST, DL_VLAN, PCP, DL_TYPE, TOS, PROTO, NW_SRC, NW_DST, TP_SRC, TP_DST, FLAG_FIELDS)
 
 T0 = 1000000                                      # poxenv.clock starts every history at 1000.0 s
@@ -164,7 +164,7 @@ def spec_overlaps(a, b):
         if k < 32 and a[f] >> k != b[f] >> k: return False
     return True
 
-def flow_rank(f): return spec_rank(f["prio"], f["m"])
+def flow_rank(f): return spec_rank_sig(f["prio"], f["m"])     # exact under the prerequisite rule (Lean: Spec.rankSig)
 def has_output(f, port): return any(a[0] == 0 and a[1] == port for a in f["acts"])
 def port_ok(f, out_port): return out_port == NONE or has_output(f, out_port)
 def selected(f, m, prio, strict, variant=None):
@@ -293,6 +293,12 @@ M_NET8A = rec(but(DL_TYPE), sc=24, dl_type=0x0800, nw_src=0x0a090909)
 M_NET8B = rec(but(DL_TYPE), sc=24, dl_type=0x0800, nw_src=0x0a010101)
 M_ALL_HI = [0xffffffff] + [0] * 12
 M_ARP_Q = rec(but(DL_TYPE, TP_SRC), dl_type=0x0806)
+M_ARP_EXACT = rec([], 0, 0, in_port=1, dl_src=MAC1, dl_dst=MAC2, dl_vlan=0xffff, pcp=0, dl_type=0x0806, tos=0, proto=1, nw_src=0x0a000001,
+                  nw_dst=0x0a000002, tp_src=0, tp_dst=0)
+M_ALL_RAWIP = rec(ALLF, sc=24, dl_type=0x0800, nw_src=0x0a000000)
+M_TOS0 = rec(but(DL_TYPE, TOS), dl_type=0x0800, tos=0)
+M_TOS2 = rec(but(DL_TYPE, TOS), dl_type=0x0800, tos=2)
+M_ARP_REQ = rec(but(DL_TYPE, PROTO), dl_type=0x0806, proto=1)
 WITNESSES = {
     # partial_overlap_witness (D23, repaired by fixes/D23_check_overlap_true_overlap.diff): in_port=1 and dl_type=0x0800 overlap
     # (an IP packet on port 1) but neither subsumes the other; the unrepaired code installs both
@@ -303,7 +309,16 @@ WITNESSES = {
     "undefined_bits_defect": [fm(ADD, M_ALL_HI, 100, cookie=1), fm(DELETE, M_ALL, 0, cookie=2)],
     # stats_unwired_defect (C04-3): aggregate stats for an ARP description with the ignored tp_src bit clear
     "stats_unwired_defect": [fm(ADD, M_ARP, 100, cookie=1), {"op": "astats", "m": M_ARP_Q, "out_port": NONE}],
+    # exact_rank_defect (C03's D26): an exact ARP flow of priority 1 must stand in front of a wildcarded flow of priority 100
+    "exact_rank_defect": [fm(ADD, M_ARP_EXACT, 1, cookie=1), fm(ADD, M_INPORT1, 100, cookie=2)],
+    # C03's D38: dl_type wildcarded with 0x0800 left in the field: nw_src is ignored, the flow is match-all and gets replaced
+    "wildcarded_prereq": [fm(ADD, M_ALL_RAWIP, 100, cookie=1), fm(ADD, M_ALL, 100, cookie=2)],
+    # C03's open D36: the same flow written with and without an ECN bit in nw_tos (model-vs-code tie only)
+    "tos_ecn": [fm(ADD, M_TOS0, 100, cookie=1), fm(ADD, M_TOS2, 100, cookie=2)],
 }
+# witnesses that belong to a C03 finding: the oracle is applied only when the tree under test claims that repair (index into the
+# variant read off the source: arpLow8, prereqExact, exactSig); `None` = open finding of C03, never judged here
+C03_GATED = {"exact_rank_defect": 2, "wildcarded_prereq": 1, "arp_opcode_high": 0, "tos_ecn": None}
 
 
 class C04(Check):
@@ -312,11 +327,23 @@ class C04(Check):
     lean_targets = ["drv_c04"]
     driver = "drv_c04"
     theorems = []            # filled in below
-    anchors = [("pox/datapaths/switch.py", 220, 232), ("pox/datapaths/switch.py", 296, 310), ("pox/datapaths/switch.py", 529, 544),
-               ("pox/datapaths/switch.py", 708, 719), ("pox/datapaths/switch.py", 729, 744), ("pox/datapaths/switch.py", 772, 863),
-               ("pox/datapaths/switch.py", 1000, 1011), ("pox/openflow/flow_table.py", 42, 65), ("pox/openflow/flow_table.py", 83, 127),
-               ("pox/openflow/flow_table.py", 157, 183), ("pox/openflow/flow_table.py", 225, 247), ("pox/openflow/flow_table.py", 256, 311),
-               ("pox/openflow/flow_table.py", 343, 374)]
+    anchors = [("pox/datapaths/switch.py", "SoftwareSwitchBase._handle_FlowTableModification"), ("pox/datapaths/switch.py", "SoftwareSwitchBase._rx_flow_mod"),
+               ("pox/datapaths/switch.py", "SoftwareSwitchBase._lookup_packet"), ("pox/datapaths/switch.py", "SoftwareSwitchBase._buffer_packet"),
+               ("pox/datapaths/switch.py", "SoftwareSwitchBase._process_actions_for_packet_from_buffer"),
+               ("pox/datapaths/switch.py", "SoftwareSwitchBase._flow_mod_add"), ("pox/datapaths/switch.py", "SoftwareSwitchBase._flow_mod_modify"),
+               ("pox/datapaths/switch.py", "SoftwareSwitchBase._flow_mod_modify_strict"), ("pox/datapaths/switch.py", "SoftwareSwitchBase._flow_mod_delete"),
+               ("pox/datapaths/switch.py", "SoftwareSwitchBase._flow_mod_delete_strict"), ("pox/datapaths/switch.py", "SoftwareSwitchBase._unwire_match"),
+               ("pox/datapaths/switch.py", "SoftwareSwitchBase._stats_flow"), ("pox/datapaths/switch.py", "SoftwareSwitchBase._stats_aggregate"),
+               ("pox/openflow/flow_table.py", "TableEntry.__init__"), ("pox/openflow/flow_table.py", "TableEntry.from_flow_mod"),
+               ("pox/openflow/flow_table.py", "TableEntry.effective_priority"), ("pox/openflow/flow_table.py", "TableEntry.is_matched_by"),
+               ("pox/openflow/flow_table.py", "TableEntry.touch_packet"), ("pox/openflow/flow_table.py", "TableEntry.is_idle_timed_out"),
+               ("pox/openflow/flow_table.py", "TableEntry.is_hard_timed_out"), ("pox/openflow/flow_table.py", "TableEntry.flow_stats"),
+               ("pox/openflow/flow_table.py", "TableEntry.to_flow_removed"), ("pox/openflow/flow_table.py", "FlowTable.add_entry"),
+               ("pox/openflow/flow_table.py", "FlowTable.matching_entries"), ("pox/openflow/flow_table.py", "FlowTable.flow_stats"),
+               ("pox/openflow/flow_table.py", "FlowTable.aggregate_stats"), ("pox/openflow/flow_table.py", "FlowTable._remove_specific_entries"),
+               ("pox/openflow/flow_table.py", "FlowTable.remove_expired_entries"), ("pox/openflow/flow_table.py", "FlowTable.remove_matching_entries"),
+               ("pox/openflow/flow_table.py", "FlowTable.entry_for_packet"), ("pox/openflow/flow_table.py", "FlowTable.check_for_overlapping_entry"),
+               ("pox/openflow/flow_table.py", "_matches_overlap")]
     design_ref = "DESIGN.md §5 C04, §6 D23 (fixed, c244d60); repairs proposed for C04-1/2/3: fixes/C04-*.diff"
     technique = ("Lean 4 proof (invariants over all operation histories; per-operation refinement of the hand-written switch model to a transcription of the "
                  "OpenFlow 1.0 §4.6/§4.7 flow table, lifted to histories by induction; bit-level lemmas tying ofp_match.__eq__ / matches_with_wildcards / "
@@ -376,10 +403,11 @@ class C04(Check):
         strict_mutual = len(last("strict_hostbits_defect")["table"]) == 1
         mask_undefined = len(last("undefined_bits_defect")["table"]) == 0
         stats_unwire = last("stats_unwired_defect")["outs"] == [{"k": "as", "pk": 0, "by": 0, "n": 1}]
-        return [strict_mutual, mask_undefined, stats_unwire]
+        return [strict_mutual, mask_undefined, stats_unwire] + list(self.c03.variant)   # + arpLow8, prereqExact, exactSig (C03, off the source)
 
     def extra_evidence(self):
-        return {"code_variant": dict(zip(["C04-1 strictMutual", "C04-2 maskUndefined", "C04-3 statsUnwire"], self.cfg))}
+        return {"code_variant": dict(zip(["C04-1 strictMutual", "C04-2 maskUndefined", "C04-3 statsUnwire", "D37 arpLow8", "D38 prereqExact",
+                                          "D26 exactSig"], self.cfg))}
 
     # ---------------------------------------------------------------- frames (real packet library)
     def frames(self):
@@ -401,6 +429,7 @@ class C04(Check):
                 eth(0x0800, ip("10.9.0.1", "10.2.2.2", 6, tcp2), dst=MAC1).hex(),  # 10/8 but not 10.1/16, port 22, other dl_dst
                 eth(0x0806, arp).hex(),
                 eth(0x88b5, b"z" * 30, dst=MAC1).hex(),                        # matches only the all-wildcard / in_port flows
+                eth(0x0806, P.arp(opcode=257, hwsrc=E(b"\0\0\0\0\0\1"), protosrc=IP("10.0.0.1"), protodst=IP("10.0.0.2"))).hex(),  # D37's input
             ]
         return self._frames
 
@@ -535,6 +564,9 @@ class C04(Check):
 
     def oracle(self, case, obs):
         if case.get("corr_only"): return None          # model-vs-code tie on a witness whose oracle failure is reported by its twin case
+        if case.get("tag") in C03_GATED:               # input class of a C03 finding: judged only if the tree claims that repair
+            g = C03_GATED[case["tag"]]
+            if g is None or not self.cfg[3 + g]: return None
         r = self.compare(case, obs, self.spec_run(case))
         if r is None: return None
         n, text = r
@@ -594,6 +626,7 @@ class C04(Check):
 
     def corpus(self):
         cases = []
+        WITNESSES["arp_opcode_high"] = [fm(ADD, M_ARP_REQ, 100, cookie=1), {"op": "pkt", "frame": self.frames()[5], "port": 3}]
         for name, ops in sorted(WITNESSES.items()):
             cases.append({"max": 100, "ops": copy.deepcopy(ops), "tag": name})
             cases.append({"max": 100, "ops": copy.deepcopy(ops), "tag": name, "corr_only": True})
